@@ -167,7 +167,12 @@ func (s *SMT) Relevant(text string) string {
 	for d := range need {
 		ds = append(ds, d)
 	}
-	sort.Slice(ds, func(i, j int) bool { return ds[i].Order < ds[j].Order })
+	sort.Slice(ds, func(i, j int) bool {
+		if ds[i].Axiom != ds[j].Axiom {
+			return !ds[i].Axiom // declarations first, then axioms
+		}
+		return ds[i].Order < ds[j].Order
+	})
 	var b strings.Builder
 	for _, d := range ds {
 		b.WriteString(d.Text)
